@@ -18,7 +18,7 @@ func init() {
 	core.Register(&core.Prop{
 		ID:    "C06",
 		Level: "exploration",
-		Rule: "EXHAUSTIVE symbol sequences over the 22-symbol alphabet {8 block opens, else/elsif/when, 8 end tags, a plain tag, an object, text} up to length 4 (quick) / 5 (thorough), and over the reduced 9-symbol alphabet {if, for, case, else, when, endif, endfor, endcase, text} up to length 6 / 7; PRNG well-nested templates of depth up to 40 and all their one-edit neighbours (delete / duplicate / swap / replace one symbol). Every symbol is spelled with valid arguments so that only nesting can cause rejection. Every sequence containing a capture symbol is checked a second time (acceptance only) with the capture block spelled as an application-defined block (Engine.RegisterBlock) and the plain tag as an application-defined tag (the block is called xwrap, xif, xcase or xfor: an end tag closes the block it is named after, not one whose name it merely ends with); sequences without a capture are checked a second time with line breaks inside the tags' arguments. Oracle: acceptance iff the reference nesting automaton accepts; rejected templates render nothing; for accepted ones the tree from Template.GetRoot() is isomorphic to the reference tree and a render with unique text markers (what the last capture holds is printed at the end) shows each marker under exactly its enclosing blocks/clauses (two runs: conditions true / one-element loops, conditions false / empty loops). Non-trivial = the sequence contains at least one block, clause or end tag; distinct = distinct sequences.",
+		Rule: "EXHAUSTIVE symbol sequences over the 22-symbol alphabet {8 block opens, else/elsif/when, 8 end tags, a plain tag, an object, text} up to length 4 (quick) / 5 (thorough), and over the reduced 9-symbol alphabet {if, for, case, else, when, endif, endfor, endcase, text} up to length 6 / 7; PRNG well-nested templates of depth up to 40 and all their one-edit neighbours (delete / duplicate / swap / replace one symbol). Every symbol is spelled with valid arguments so that only nesting can cause rejection. Every sequence containing a capture symbol is checked a second time (acceptance only) with the capture block spelled as an application-defined block (Engine.RegisterBlock) and the plain tag as an application-defined tag (the block is called xwrap, xif, xcase or xfor: an end tag closes the block it is named after, not one whose name it merely ends with); sequences without a capture are checked a second time with line breaks inside the tags' arguments. Oracle: acceptance iff the reference nesting automaton accepts; rejected templates render nothing; for accepted ones the tree from Template.GetRoot() is isomorphic to the reference tree and a render with unique text markers (what the last capture holds is printed at the end) shows each marker under exactly its enclosing blocks/clauses (three runs: conditions true / one-element loops, conditions false / empty loops, conditions false / nil collections). Non-trivial = the sequence contains at least one block, clause or end tag; distinct = distinct sequences.",
 		Exhaustive: func(string) bool { return true },
 		Assumptions: []string{
 			"comment and raw bodies are opaque up to their first end tag; an unclosed comment or raw is rejected like any other unclosed block",
@@ -360,10 +360,13 @@ func c06Check(c *core.Ctx, e *liquid.Engine, seq []ref.Sym, kind string) {
 		}
 	}
 	m := &ref.Model{}
-	for run := 0; run < 2; run++ {
+	for run := 0; run < 3; run++ {
 		env := gen.Env{{K: "t", V: gen.Bool(run == 0)}, {K: "f", V: gen.Bool(run != 0)}, {K: "sel", V: gen.Int(int64(1 + run))}, {K: "one", V: gen.Ints(1)}}
 		if run == 1 {
 			env[3].V = gen.Arr()
+		}
+		if run == 2 {
+			env[3].V = gen.Nil // a nil collection selects nothing either: the else clause renders
 		}
 		exp, st := m.Render(ast, env)
 		if st != ref.OK {
